@@ -1,6 +1,10 @@
 package main
 
 import (
+	"fmt"
+	"go/token"
+	"strings"
+
 	"golang.org/x/tools/go/ssa"
 )
 
@@ -58,6 +62,8 @@ func propC19(c *Ctx) propInfo {
 	c.errflow(excC19E2, "tonconnect")
 	c.floor("E1.P2-bounds", 10)
 	c.floor("E2.R-drop", 10)
+	c.tonProofLayout()
+	c.proofDataflow()
 	return propInfo{
 		explanation: "Static structural clauses of C19 (DESIGN.md §4 C19): every accepting exit of CheckProof is dominated by the passing edges of payload check, lifetime comparison, domain check, signature verification, and the state-init key extraction is dominated by the state-init/address comparison; CheckPayload accepts only through the constant-time MAC comparison, the expiry comparison and the length check; signed-message byte layout equals the spec; no panic is reachable from the entry points; error discipline in package tonconnect. Decides these necessary conditions, not unforgeability.",
 		assumptions: []string{"ed25519/HMAC/SHA-256 behave as documented", "the clock is not modelled"},
@@ -80,3 +86,213 @@ var excC19 = map[string]excEntry{
 	"(*tonconnect.Server).CheckPayload P2 slice hash.Hash.Sum()[:16]": {"Sum(nil) of an HMAC-SHA256 returns exactly 32 bytes (library contract)", nil},
 }
 var excC19E2 = map[string]string{}
+
+func (c *Ctx) tonProofLayout() {
+	const R = "E7.bytelayout"
+	p := c.pkg("tonconnect")
+	if f := c.mustFn(R, "tonconnect", "createMessage"); f != nil {
+		sums := callsTo(f, "crypto/sha256.Sum256")
+		if len(sums) != 2 {
+			c.bad(R, "createMessage = sha256(ffff|ton-connect|sha256(item))", f.Pos(), fmt.Sprintf("createMessage has %d SHA-256 applications, the format has two (item hash, full message hash)", len(sums)))
+		} else {
+			inner := c.assembled(f, sums[0].Call.Args[0])
+			outer := c.assembled(f, sums[1].Call.Args[0])
+			gotI := strings.Join(inner, " | ")
+			gotO := strings.Join(outer, " | ")
+			wantI := `"ton-proof-item-v2/" | buf4{BE32[:](uint32<-int32 workChain)} | field:address | buf4{LE32[:](uint32<-int len(*message.domain))} | field:domain | buf8{LE64[:](uint64<-int64 ts)} | field:payload`
+			c.check(gotI == wantI, R, "ton-proof item = prefix | wc BE32 | addr | len(domain) LE32 | domain | ts LE64 | payload", sums[0].Pos(), gotI,
+				"createMessage assembles the signed item as\n      "+gotI+"\n    the ton-proof format is\n      "+wantI)
+			okO := len(outer) == 3 && outer[0] == "lit{ff ff}" && outer[1] == `"ton-connect"` && outer[2] == "call:crypto/sha256.Sum256"
+			c.check(okO, R, "signed message = sha256(ff ff | 'ton-connect' | sha256(item))", sums[1].Pos(), gotO, "createMessage assembles the full message as "+gotO+"; the format is ff ff | 'ton-connect' | sha256(item)")
+			// len(domain) is the length of the same field that is appended
+			okL := false
+			allInstrs(f, func(_ *ssa.BasicBlock, in ssa.Instruction) {
+				if cl, ok := in.(*ssa.Call); ok {
+					if b, ok := cl.Call.Value.(*ssa.Builtin); ok && b.Name() == "len" {
+						if _, n, ok := fieldOfLoad(cl.Call.Args[0]); ok && n == "domain" {
+							okL = true
+						}
+					}
+				}
+			})
+			c.check(okL, R, "the length prefix is len(domain)", f.Pos(), "len(message.domain)", "the 4-byte length in the signed item is not the length of the domain that follows it")
+			// the function returns the outer hash
+			okR := false
+			for _, r := range returnsOf(f) {
+				if derivesFrom(retVal(r, 0), func(v ssa.Value) bool { return v == ssa.Value(sums[1]) }, false) {
+					okR = true
+				}
+			}
+			c.check(okR, R, "createMessage returns the outer hash", f.Pos(), "res[:]", "createMessage no longer returns sha256 of the full message")
+		}
+	}
+	// prefixes
+	if p != nil {
+		c.check(constStrEquals(p, "tonProofPrefix", "ton-proof-item-v2/") && constStrEquals(p, "tonConnectPrefix", "ton-connect"), R, "prefix constants", token.NoPos, "ton-proof-item-v2/ and ton-connect", "the ton-proof prefix constants changed")
+	}
+	// payload: nonce8 | expiry BE64 [8:16] | hmac-sha256(secret, [0:16])[:16]
+	if f := c.mustFn(R, "tonconnect", "Server.GeneratePayload"); f != nil {
+		ws := c.byteWrites(f)
+		c.check(len(ws) == 1 && ws[0].how == "BE64" && ws[0].lo == "8" && ws[0].hi == "16", R, "GeneratePayload writes expiry BE64 at [8:16]", f.Pos(), fieldsString(ws), "GeneratePayload writes "+fieldsString(ws)+"; CheckPayload reads the time big-endian at [8:16]")
+		okRand, okLen, okOut, okMac := false, false, false, false
+		allInstrs(f, func(_ *ssa.BasicBlock, in ssa.Instruction) {
+			switch x := in.(type) {
+			case *ssa.Slice:
+				if al, ok := x.X.(*ssa.Alloc); ok && al.Comment == "makeslice" && x.Low == nil {
+					if k, ok := constInt(x.High); ok {
+						okLen = k == 16
+					}
+				}
+			case *ssa.Call:
+				q := callQName(&x.Call)
+				if q == "crypto/rand.Read" {
+					_, lo, hi := sliceBounds(x.Call.Args[0])
+					okRand = (lo == "" || lo == "0") && hi == "8"
+				}
+				if q == "encoding/hex.EncodeToString" {
+					_, lo, hi := sliceBounds(x.Call.Args[0])
+					okOut = (lo == "" || lo == "0") && hi == "32"
+				}
+				if x.Call.IsInvoke() && x.Call.Method.Name() == "Sum" {
+					if sl, ok := x.Call.Args[0].(*ssa.Slice); ok {
+						if al, ok := sl.X.(*ssa.Alloc); ok && al.Comment == "makeslice" {
+							okMac = true
+						}
+					}
+				}
+			}
+		})
+		c.check(okRand && okLen && okOut && okMac, R, "GeneratePayload = hex(nonce8 | expiry8 | mac[:16])", f.Pos(), "make 16; rand [:8]; Sum appended to the 16 bytes; hex of [:32]", fmt.Sprintf("GeneratePayload layout changed (16-byte body %v, random nonce [:8] %v, MAC appended to the body %v, output [:32] %v)", okLen, okRand, okMac, okOut))
+	}
+	if f := c.mustFn(R, "tonconnect", "Server.CheckPayload"); f != nil {
+		rs := c.byteReads(f)
+		c.check(len(rs) == 1 && rs[0].how == "BE64" && rs[0].lo == "8" && rs[0].hi == "16", R, "CheckPayload reads expiry BE64 at [8:16]", f.Pos(), fieldsString(rs), "CheckPayload reads "+fieldsString(rs)+"; GeneratePayload writes the time big-endian at [8:16]")
+		okW, okCmp := false, false
+		allInstrs(f, func(_ *ssa.BasicBlock, in ssa.Instruction) {
+			if cl, ok := in.(*ssa.Call); ok {
+				if cl.Call.IsInvoke() && cl.Call.Method.Name() == "Write" {
+					_, lo, hi := sliceBounds(cl.Call.Args[0])
+					okW = (lo == "" || lo == "0") && hi == "16"
+				}
+				if callQName(&cl.Call) == "crypto/subtle.ConstantTimeCompare" {
+					_, lo0, hi0 := sliceBounds(cl.Call.Args[0])
+					_, lo1, hi1 := sliceBounds(cl.Call.Args[1])
+					okCmp = lo0 == "16" && hi0 == "" && (lo1 == "" || lo1 == "0") && hi1 == "16" && derivesFrom(cl.Call.Args[1], func(v ssa.Value) bool {
+						c2 := callOf(v)
+						return c2 != nil && c2.Call.IsInvoke() && c2.Call.Method.Name() == "Sum"
+					}, false)
+				}
+			}
+		})
+		c.check(okW && okCmp, R, "CheckPayload: mac over [0:16], compared with bytes [16:32]", f.Pos(), "Write(b[:16]); ConstantTimeCompare(b[16:], Sum(nil)[:16])", fmt.Sprintf("CheckPayload no longer MACs exactly the 16-byte body (%v) and compares bytes [16:] with the first 16 MAC bytes (%v)", okW, okCmp))
+	}
+	// both sides key the MAC the same way
+	var keys []string
+	for _, name := range []string{"Server.GeneratePayload", "Server.CheckPayload"} {
+		if f := c.mustFn(R, "tonconnect", name); f != nil {
+			for _, cl := range callsTo(f, "crypto/hmac.New") {
+				k := "?"
+				if _, n, ok := fieldOfLoad(stripConv(cl.Call.Args[1])); ok {
+					k = n
+				}
+				h := shape(cl.Call.Args[0], 2)
+				if fn, ok := cl.Call.Args[0].(*ssa.Function); ok {
+					h = fn.String()
+				}
+				keys = append(keys, h+"/"+k)
+			}
+		}
+	}
+	c.check(len(keys) == 2 && keys[0] == keys[1] && strings.Contains(keys[0], "sha256") && strings.HasSuffix(keys[0], "/secret"), R, "payload MAC = HMAC-SHA256 keyed with the server secret on both sides", token.NoPos, fmt.Sprint(keys), fmt.Sprintf("GeneratePayload and CheckPayload key the MAC differently: %v", keys))
+	c.floor(R, 9)
+}
+
+// proofDataflow: CheckProof verifies the signature over the message built from the same proof
+// whose address selects the key, and returns the key it verified with.
+func (c *Ctx) proofDataflow() {
+	const R = "E7.dataflow"
+	f := c.mustFn(R, "tonconnect", "Server.CheckProof")
+	if f == nil {
+		return
+	}
+	tp := f.Params[2]
+	fromTP := func(v ssa.Value) bool { return v == ssa.Value(tp) }
+	for _, cl := range callsTo(f, modPath+"/tonconnect.convertTonProofMessage") {
+		c.check(cl.Call.Args[0] == ssa.Value(tp), R, "message fields come from the submitted proof", cl.Pos(), "convertTonProofMessage(tp)", "CheckProof parses something other than the submitted proof")
+	}
+	for _, cl := range callsTo(f, modPath+"/ton.ParseAccountID") {
+		okv := derivesFrom(cl.Call.Args[0], func(v ssa.Value) bool { _, n, ok := fieldOfLoad(v); return ok && n == "Address" }, false) && derivesFrom(cl.Call.Args[0], fromTP, false)
+		c.check(okv, R, "the key is looked up for the proof's address", cl.Pos(), "ParseAccountID(tp.Address)", "CheckProof looks up the key for an address other than tp.Address")
+	}
+	acc := callResult(modPath + "/ton.ParseAccountID")
+	for _, q := range []string{modPath + "/tonconnect.Server.getWalletPubKey", modPath + "/tonconnect.compareStateInitWithAddress"} {
+		for _, cl := range callsTo(f, q) {
+			okv := false
+			for _, a := range cl.Call.Args {
+				if derivesFrom(a, acc, false) {
+					okv = true
+				}
+			}
+			c.check(okv, R, shortQ(q)+" receives the proof's account id", cl.Pos(), "account id from ParseAccountID(tp.Address)", "CheckProof calls "+shortQ(q)+" with an account id that is not the proof's address")
+		}
+	}
+	si := func(v ssa.Value) bool { _, n, ok := fieldOfLoad(v); return ok && n == "StateInit" }
+	var siArgs []string
+	for _, q := range []string{modPath + "/tonconnect.compareStateInitWithAddress", modPath + "/tonconnect.ParseStateInit"} {
+		for _, cl := range callsTo(f, q) {
+			a := cl.Call.Args[len(cl.Call.Args)-1]
+			c.check(derivesFrom(a, si, false), R, shortQ(q)+" receives the proof's state-init", cl.Pos(), "tp.Proof.StateInit", "CheckProof passes a state-init other than the proof's to "+shortQ(q))
+			siArgs = append(siArgs, shape(a, 4))
+		}
+	}
+	c.check(len(siArgs) == 2 && siArgs[0] == siArgs[1], R, "the state-init whose hash is compared is the one the key is taken from", f.Pos(), fmt.Sprint(siArgs), fmt.Sprintf("the state-init compared with the address and the one the key is extracted from differ: %v", siArgs))
+	for _, cl := range callsTo(f, modPath+"/tonconnect.signatureVerify") {
+		okM := derivesFrom(cl.Call.Args[1], callResult(modPath+"/tonconnect.createMessage"), false)
+		okS := derivesFrom(cl.Call.Args[2], func(v ssa.Value) bool { _, n, ok := fieldOfLoad(v); return ok && n == "signature" }, false)
+		okK := derivesFrom(cl.Call.Args[0], callResult(modPath+"/tonconnect.Server.getWalletPubKey", modPath+"/tonconnect.ParseStateInit"), false)
+		c.check(okM && okS && okK, R, "signatureVerify(key of the address, createMessage(parsed), parsed.signature)", cl.Pos(), "arguments traced", fmt.Sprintf("signatureVerify arguments are not (looked-up key %v, created message %v, proof signature %v)", okK, okM, okS))
+		// returned key == verified key
+		for _, sp := range successPoints(f, 0) {
+			c.check(retVal(sp.Ret, 1) == cl.Call.Args[0] || unspill(sp.Ret.Results[1]) == cl.Call.Args[0], R, "the key returned is the key the signature was verified with", sp.Ret.Pos(), "same SSA value", "CheckProof returns a public key different from the one used in signatureVerify")
+		}
+	}
+	for _, cl := range callsTo(f, modPath+"/tonconnect.createMessage") {
+		c.check(derivesFrom(cl.Call.Args[0], callResult(modPath+"/tonconnect.convertTonProofMessage"), false), R, "the verified message is built from the parsed proof", cl.Pos(), "createMessage(parsed)", "CheckProof builds the message to verify from something other than the parsed proof")
+	}
+	// convertTonProofMessage copies every field
+	if g := c.mustFn(R, "tonconnect", "convertTonProofMessage"); g != nil {
+		want := map[string]string{"domain": "Domain", "ts": "Timestamp", "payload": "Payload", "stateInit": "StateInit", "signature": "Signature", "address": "Address", "workChain": "Address"}
+		for dst, src := range want {
+			okv := false
+			for _, st := range fieldStores(g, dst) {
+				okv = derivesFrom(st.Val, func(v ssa.Value) bool { _, n, ok := fieldOfLoad(v); return ok && n == src }, true)
+			}
+			c.check(okv, R, "parsedMessage."+dst+" comes from proof."+src, g.Pos(), "field copy traced", "convertTonProofMessage no longer fills "+dst+" from the proof's "+src)
+		}
+	}
+	// who may write the parsed proof: only its constructor
+	nw := 0
+	for _, g := range c.moduleFuncs("tonconnect") {
+		allInstrs(g, func(_ *ssa.BasicBlock, in ssa.Instruction) {
+			if st, ok := in.(*ssa.Store); ok {
+				if tn, fld, ok := fieldOf(st.Addr); ok && tn == "tonconnect.parsedMessage" {
+					nw++
+					c.check(g.Name() == "convertTonProofMessage", R, fnName(g)+" writes parsedMessage."+fld, st.Pos(), "constructor", fnName(g)+" modifies parsedMessage."+fld+" after it was parsed from the proof: the verified message would no longer be the submitted one")
+				}
+			}
+		})
+	}
+	// client side signs createMessage(convertTonProofMessage(proof)) and stores the signature
+	if g := c.mustFn(R, "tonconnect", "CreateSignedProof"); g != nil {
+		okv := false
+		for _, cl := range callsTo(g, modPath+"/tonconnect.signMessage") {
+			okv = derivesFrom(cl.Call.Args[1], callResult(modPath+"/tonconnect.createMessage"), false)
+		}
+		okStore := false
+		for _, st := range fieldStores(g, "Signature") {
+			okStore = derivesFrom(st.Val, callResult(modPath+"/tonconnect.signMessage"), true)
+		}
+		c.check(okv && okStore, R, "client signs the same createMessage and stores the signature", g.Pos(), "signMessage(key, createMessage(convert(proof)))", "CreateSignedProof no longer signs createMessage's output / stores the signature in the proof")
+	}
+	c.floor(R, 25)
+}
